@@ -33,7 +33,7 @@ RTOL_PDF = 1e-12       # same scipy factors, different multiplication order
 TOL_LOG = 1e-9         # sum of scipy logpdfs vs log of the product of scipy pdfs
 TOL_GRAD = 2e-6        # central difference (h <= 1e-4) vs closed form on the well-conditioned interior grid
 MARGIN = 0.01          # >= 100 h : gradient points keep this distance from every support end point
-SIG_L5 = 'C08:strict-subset:density-depends-on-unrequested-parameters'
+SIG_L5 = 'C08:strict-subset:density-not-product-of-requested-conditionals'
 
 
 class _Viol(Exception):
@@ -185,16 +185,19 @@ def _cmp_density(model, req, X, got, log, what='batch', prior=None):
                    'evaluated_as': what,
                    'witness': _point(model, req, name, x if len(order) > 1 else float(x[0]))}
             sig = 'C08:%s:%s:%s' % (name, cls, kind)
-            if cls == 'strict-subset' and prior is not None:
-                # root-cause probe: identical rows of one batch must have identical densities
-                try:
-                    with np.errstate(all='ignore'):
-                        rep = np.asarray(getattr(prior, name)(np.tile(x, (4, 1))), dtype=float).reshape(-1)
-                    if len(set(rep.tolist())) > 1 or np.isnan(rep).any():
-                        sig = SIG_L5
+            if cls == 'strict-subset':
+                # one class for every disagreement on an ancestrally closed strict subset (pdf or logpdf, value or
+                # zero set): the density is not the product over the requested nodes
+                sig = SIG_L5
+                det['kind'] = '%s:%s' % (name, kind)
+                if prior is not None:
+                    # diagnostic probe: identical rows of one batch must have identical densities
+                    try:
+                        with np.errstate(all='ignore'):
+                            rep = np.asarray(getattr(prior, name)(np.tile(x, (4, 1))), dtype=float).reshape(-1)
                         det['identical_rows_in_one_batch'] = R.enc_nested(rep)
-                except Exception as e:  # noqa
-                    det['probe_exception'] = repr(e)[:200]
+                    except Exception as e:  # noqa
+                        det['probe_exception'] = repr(e)[:200]
             return (sig, det), cnt
     return None, cnt
 
